@@ -224,7 +224,7 @@ def _wave(ts, nw):
     own dtcwt tables are stored); the form is determined by the filter contents, so replays reproduce it"""
     if WNAME is not None:
         return WNAME
-    fs = [np.asarray(t, dtype=np.float64).ravel() for t in ts[:nw]]
+    fs = [np.array(t, dtype=np.float64).ravel().copy() for t in ts[:nw]]      # private copies: they are scribbled over after construction
     if os.environ.get('VERIF_NO_FORMS') == '1':
         return tuple(fs)
     k = _hashlib.sha1(repr([f.tolist() for f in fs]).encode()).digest()[1] % 4
@@ -237,11 +237,26 @@ def _wave(ts, nw):
     return tuple(fs)
 
 
+def _scribble(w):
+    """after a module has been constructed from the caller's arrays, the caller re-uses those arrays for something else:
+    a module's filters are its own copy (the wavelet is a construction PARAMETER, i.e. its value at construction)"""
+    if isinstance(w, (tuple, list)):
+        for f in w:
+            if isinstance(f, np.ndarray) and f.flags.writeable:
+                f *= -3.0; f += 7.0
+
+
+def _build(M, w, **kw):
+    mod = M(wave=w, **kw)
+    _scribble(w)
+    return mod
+
+
 def DWT1DForward(ps, ts):
     m, J = ps
     h0, h1, x = ts
     from pytorch_wavelets.dwt.transform1d import DWT1DForward as M
-    mod = M(J=J, wave=_wave(ts, 2), mode=LM(m, ps, ts))
+    mod = _build(M, _wave(ts, 2), J=J, mode=LM(m, ps, ts))
     yl, yh = mod(T(x))
     return [N(yl)] + [N(h) for h in yh]
 
@@ -251,7 +266,7 @@ def DWT1DInverse(ps, ts):
     g0, g1, yl = ts[:3]
     yh = ts[3:]
     from pytorch_wavelets.dwt.transform1d import DWT1DInverse as M
-    mod = M(wave=_wave(ts, 2), mode=LM(m, ps, ts))
+    mod = _build(M, _wave(ts, 2), mode=LM(m, ps, ts))
     y = _inverse_with_list_history(mod, T(yl), [None if h is None else T(h) for h in yh])
     return [N(y)]
 
@@ -259,7 +274,7 @@ def DWT1DInverse(ps, ts):
 def DWTForward(ps, ts):
     m, J, nw = ps
     from pytorch_wavelets.dwt.transform2d import DWTForward as M
-    mod = M(J=J, wave=_wave(ts, nw), mode=LM(m, ps, ts))
+    mod = _build(M, _wave(ts, nw), J=J, mode=LM(m, ps, ts))
     yl, yh = mod(T(ts[nw]))
     return [N(yl)] + [N(h) for h in yh]
 
@@ -267,7 +282,7 @@ def DWTForward(ps, ts):
 def DWTInverse(ps, ts):
     m, nw = ps
     from pytorch_wavelets.dwt.transform2d import DWTInverse as M
-    mod = M(wave=_wave(ts, nw), mode=LM(m, ps, ts))
+    mod = _build(M, _wave(ts, nw), mode=LM(m, ps, ts))
     yl = ts[nw]
     yh = ts[nw + 1:]
     y = _inverse_with_list_history(mod, T(yl), [None if h is None else T(h) for h in yh])
@@ -277,7 +292,7 @@ def DWTInverse(ps, ts):
 def SWTForward(ps, ts):
     m, J, nw = ps
     from pytorch_wavelets.dwt.transform2d import SWTForward as M
-    mod = M(J=J, wave=_wave(ts, nw), mode=LM(m, ps, ts))
+    mod = _build(M, _wave(ts, nw), J=J, mode=LM(m, ps, ts))
     return [N(c) for c in mod(T(ts[nw]))]
 
 
